@@ -25,8 +25,17 @@ def timer_restore_findings(py: PyProgram) -> tuple[list[tuple[str, str, int]], i
             raise AnalysisError(f"load_snapshot: no store to self._scheduler.{fld}")
         for a in stores:
             n += 1
-            gs = [(unparse(x), pol) for x, pol, _o in g.guards_of(g.node_of(a)) if isinstance(x, ast.AST)]
-            bad = [t for t, _p in gs if fld in t or "cycle_count" in t]
+            def expanded(x: ast.AST, depth: int = 0) -> str:
+                # the guard with its locals replaced by what they were computed from (names carry no meaning)
+                t = unparse(x)
+                if depth < 3:
+                    for nm_ in {y.id for y in ast.walk(x) if isinstance(y, ast.Name)}:
+                        for dv in defs.get(nm_, []):
+                            if isinstance(dv, ast.AST):
+                                t += " <- " + expanded(dv, depth + 1)
+                return t
+            gs = [(unparse(x), pol, expanded(x)) for x, pol, _o in g.guards_of(g.node_of(a)) if isinstance(x, ast.AST)]
+            bad = [t for t, _p, ex in gs if f"'{fld}'" in ex or "cycle_count" in ex]
             if bad:
                 out.append((key_of(EMU, "PCE500Emulator.load_snapshot", f"{fld} restored conditionally"),
                             f"load_snapshot restores the saved {fld} only when `{bad[0]}`: a target that was already due when the snapshot was taken (the tick happens at the start of the next instruction) is dropped, so that boundary never fires after a restore", a.lineno))
@@ -34,7 +43,9 @@ def timer_restore_findings(py: PyProgram) -> tuple[list[tuple[str, str, int]], i
             names = [x.id for x in ast.walk(v) if isinstance(x, ast.Name)]
             for nm in names:
                 ds = [d for d in defs.get(nm, []) if isinstance(d, ast.AST)]
-                adjusted = [d for d in ds if not ("timer_info.get" in unparse(d) or "metadata" in unparse(d))]
+                def from_snapshot(dv: ast.AST) -> bool:
+                    return any(isinstance(c, ast.Constant) and c.value == fld for c in ast.walk(dv))
+                adjusted = [d for d in ds if not from_snapshot(d)]
                 augs = [s for s in ast.walk(fn) if isinstance(s, ast.AugAssign) and isinstance(s.target, ast.Name) and s.target.id == nm]
                 if len(ds) > 1 and adjusted or augs:
                     what = unparse(augs[0]) if augs else unparse(adjusted[0])
